@@ -22,13 +22,9 @@ var CollateFuncs = map[string]func(string, string) int{
 		)
 	},
 	"nocase": func(a, b string) int {
-		lc := func(r rune) rune {
-			if r >= 'A' && r <= 'Z' {
-				return rune(strings.ToLower(string(r))[0])
-			}
-			return r
-		}
-		la, lb := strings.Map(lc, a), strings.Map(lc, b)
+		// byte for byte: text which isn't valid UTF-8 is compared as it is
+		// stored (strings.Map() would replace every invalid byte by U+FFFD).
+		la, lb := lowerASCII(a), lowerASCII(b)
 		// SQLite compares with a C string routine: once both strings have
 		// a NUL byte at the same place nothing after it is looked at, only
 		// the lengths.
